@@ -224,13 +224,21 @@ pub fn builtin_case_o(text: &str, orc: &crate::mid::Oracle, h: usize, seed: Opti
     let want_2 = orc.two.clone();
     let (heu, hname) = builtin(h);
     let bd = guard(|| BdAdf::from_parser(&parser)).ok();
-    for obj in 0..2 {
-        let oname = ["native", "hybrid(pre-grounded)"][obj];
+    for obj in 0..4 {
+        let oname = ["native", "hybrid(pre-grounded)", "reimported(serde)", "reimported(node list)"][obj];
         if obj == 1 && (bd.is_none() || seed.is_some()) {
             continue;
         }
+        if obj >= 2 && (seed.is_some() || h != 0) {
+            continue; // re-imported objects: the Simple heuristic only
+        }
         let mk = || {
-            let mut a = if obj == 0 { Adf::from_parser(&parser) } else { bd.as_ref().unwrap().hybrid_step() };
+            let mut a = match obj {
+                0 => Adf::from_parser(&parser),
+                1 => bd.as_ref().unwrap().hybrid_step(),
+                2 => crate::c14::roundtrip_serde(&Adf::from_parser(&parser)),
+                _ => crate::c14::roundtrip_dblayer(&Adf::from_parser(&parser)),
+            };
             if let Some(k) = seed {
                 a.seed(seed_bytes(k));
             }
